@@ -227,7 +227,7 @@ Proof.
   - (* EXTINF *) apply (parsed_extinf_title l a Hg Ha).
   - (* BYTERANGE *) unfold parse_xbyterange in Ha. apply bind_ok in Ha. destruct Ha as [rest [_ Ha]]. apply (parsed_range_wf _ _ Ha).
   - (* KEY *) unfold parse_xkey in Ha. apply bind_ok in Ha. destruct Ha as [rest [_ Ha]].
-    destruct (str_eqb (trim rest) s_METHOD_NONE); [inversion Ha; split; [reflexivity | exact I]|].
+    destruct (is_method_none (attr_pairs rest)); [inversion Ha; split; [reflexivity | exact I]|].
     apply rmap_ok in Ha. destruct Ha as [d [Hd ->]]. split; [apply (parsed_key_wf _ _ Hd) | apply (parsed_key_stripped _ _ Hd)].
   - (* MAP *) apply (parsed_xmap_wf _ _ Ha).
   - (* PDT *) apply (parsed_pdt_wf l a Hg Ha).
